@@ -216,9 +216,14 @@ func (a *authWorld) project() M {
 	tcs, _ := c.App.XIBCKeeper.ClientKeeper.GetClientState(ctx, auName("tss"))
 	lat["tss"] = fp(tcs.String())
 	st["lat"] = lat
+	// receipts by direct look-up of every sequence that was ever tried (not through the module's own iterator)
 	rc := []interface{}{}
-	for _, r := range c.App.XIBCKeeper.PacketKeeper.GetAllPacketReceipts(ctx) {
-		rc = append(rc, M{"c": auAbs(r.SrcChain), "s": int64(r.Sequence)})
+	for _, ch := range auChains {
+		for seq := uint64(1); seq <= a.RecvN[ch]+2; seq++ {
+			if c.App.XIBCKeeper.PacketKeeper.HasPacketReceipt(ctx, auName(ch), a.HostID, seq) {
+				rc = append(rc, M{"c": ch, "s": int64(seq)})
+			}
+		}
 	}
 	st["rcpt"] = rc
 	cm := []interface{}{}
